@@ -336,4 +336,210 @@ theorem run_tail : ∀ (n : Nat) (rest : List Char), rest.length ≤ n → ∀ (
           rw [acc_run_cons, he]
           simp [acc, tailSpec_other c cs hdot hcomma]
 
+/-- phase P: a run of digits before any separator -/
+theorem run_digits : ∀ (g : List Char) (st : St) (i k : Nat) (r : List Char), g.all Char.isDigit = true →
+    st.commaPos = none → st.scale = none → i = st.prefixLen + k → st.mant ≤ i128Max →
+    st.fmt = (if k ≥ 4 then some Fmt.plain else none) →
+    acc (run st i (g ++ r)) =
+      if foldMant st.mant g ≤ i128Max then
+        acc (run { st with mant := foldMant st.mant g, hasDigit := st.hasDigit || !g.isEmpty,
+                           fmt := if k + g.length ≥ 4 then some Fmt.plain else none } (i + g.length) r)
+      else none := by
+  intro g
+  induction g with
+  | nil =>
+    intro st i k r _ _ _ _ hm hf
+    cases st
+    simp_all
+  | cons c cs ih =>
+    intro st i k r hall hc hs hi hm hf
+    simp only [List.all_cons, Bool.and_eq_true] at hall
+    obtain ⟨hd, hall'⟩ := hall
+    rw [List.cons_append, acc_run_cons, step_digit st i c hd]
+    simp only [hc, reduceCtorEq, if_false, foldMant_cons]
+    by_cases hov : st.mant * 10 + digitVal c > i128Max
+    · have := foldMant_ge (st.mant * 10 + digitVal c) cs
+      have hnot : ¬ (foldMant (st.mant * 10 + digitVal c) cs ≤ i128Max) := by omega
+      simp [hov, acc, hnot]
+    · simp only [hov, if_false, acc_ok]
+      have hfmt : (if st.scale.isNone = true ∧ st.fmt.isNone = true ∧ i ≥ 3 + st.prefixLen then some Fmt.plain else st.fmt)
+          = (if k + 1 ≥ 4 then some Fmt.plain else none) := by
+        rw [hs, hf]
+        by_cases h4 : k ≥ 4
+        · have : k + 1 ≥ 4 := by omega
+          simp [h4, this]
+        · by_cases h3 : k = 3
+          · subst h3; simp [hi]; omega
+          · have h5 : ¬ (k + 1 ≥ 4) := by omega
+            have h6 : ¬ (i ≥ 3 + st.prefixLen) := by omega
+            simp [h4, h5, h6]
+      rw [hfmt]
+      rw [ih _ (i + 1) (k + 1) r hall' (by simp [hc]) (by simp [hs]) (by simp; omega) (by simp; omega) (by simp)]
+      simp only [List.length_cons, List.isEmpty_cons, Bool.not_false, Bool.or_true, Bool.true_or]
+      rw [show k + 1 + cs.length = k + (cs.length + 1) by omega, show i + 1 + cs.length = i + (cs.length + 1) by omega]
+      simp only [hs, Option.map_none]
+
+/-- the first comma, before which 1–3 digits must have been read -/
+theorem run_first_comma (st : St) (i : Nat) (cs : List Char) (hi : i ≠ 0) (hcp : st.commaPos = none) (hs : st.scale = none)
+    (hal : alignedComma st.prefixLen none i = true) (hm : st.mant ≤ i128Max) :
+    acc (run st i (',' :: cs)) =
+      if tailSpec (',' :: cs) = true ∧ foldMant st.mant (cs.filter Char.isDigit) ≤ i128Max then
+        acc (finish { st with commaPos := if cs.contains '.' then none else some (i + (cs.length + 1)),
+                              mant := foldMant st.mant (cs.filter Char.isDigit),
+                              scale := tailScale (',' :: cs), fmt := some .comma3dot, hasDigit := true }
+                    (i + (cs.length + 1)))
+      else none := by
+  rw [run_comma st i cs hi hs (by rw [hcp]; exact hal)]
+  match cs with
+  | [] => simp [tailSpec]
+  | [a] => simp [tailSpec]
+  | [a, b] => simp [tailSpec]
+  | a :: b :: c :: tl =>
+    dsimp only
+    by_cases hd : a.isDigit = true ∧ b.isDigit = true ∧ c.isDigit = true
+    · obtain ⟨ha, hb, hc⟩ := hd
+      have hfil : (a :: b :: c :: tl).filter Char.isDigit = a :: b :: c :: tl.filter Char.isDigit := by
+        simp [List.filter_cons, ha, hb, hc]
+      have hcont : (a :: b :: c :: tl).contains '.' = tl.contains '.' := by
+        rw [contains_dot_cons _ _ (digit_ne ha).2.2,
+          contains_dot_cons _ _ (digit_ne hb).2.2, contains_dot_cons _ _ (digit_ne hc).2.2]
+      have hlen' : (a :: b :: c :: tl).length + 1 = tl.length + 4 := by simp
+      rw [hfil, hcont, hlen']
+      have e1 : foldMant st.mant (a :: b :: c :: tl.filter Char.isDigit)
+          = foldMant (foldMant st.mant [a, b, c]) (tl.filter Char.isDigit) := by
+        simp only [foldMant_cons, foldMant_nil]
+      by_cases hov : foldMant st.mant [a, b, c] ≤ i128Max
+      · simp only [ha, hb, hc, hov, and_self, if_true]
+        rw [run_tail tl.length tl (Nat.le_refl _) _ (i + 4) (by omega) rfl (by simp [hs]) rfl hov rfl]
+        simp only [tailSpec, ha, hb, hc, Bool.true_and, tailScale]
+        rw [e1, show i + 4 + tl.length = i + (tl.length + 4) by omega]
+      · have := foldMant_ge (foldMant st.mant [a, b, c]) (tl.filter Char.isDigit)
+        have hnot : ¬ (foldMant st.mant (a :: b :: c :: tl.filter Char.isDigit) ≤ i128Max) := by
+          rw [e1]; omega
+        simp [hov, hnot]
+    · have h1 : ¬ (a.isDigit = true ∧ b.isDigit = true ∧ c.isDigit = true ∧ foldMant st.mant [a, b, c] ≤ i128Max) := by
+        intro ⟨x, y, z, _⟩; exact hd ⟨x, y, z⟩
+      have h2 : tailSpec (',' :: a :: b :: c :: tl) = false := by
+        simp only [tailSpec]
+        simp only [not_and, Bool.not_eq_true] at hd
+        by_cases ha : a.isDigit = true
+        · by_cases hb : b.isDigit = true
+          · simp [ha, hb, hd ha hb]
+          · simp [hb]
+        · simp [ha]
+      simp [h1, h2]
+
+theorem dropWhile_head_not {p : Char → Bool} : ∀ (l : List Char) {c : Char} {cs : List Char},
+    l.dropWhile p = c :: cs → p c = false := by
+  intro l
+  induction l with
+  | nil => intro c cs h; simp at h
+  | cons x xs ih =>
+    intro c cs h
+    rw [List.dropWhile_cons] at h
+    by_cases hx : p x = true
+    · simp only [hx, if_true] at h; exact ih h
+    · simp only [hx] at h
+      simp only [Bool.false_eq_true, if_false, List.cons.injEq] at h
+      rw [← h.1]; simpa using hx
+
+theorem all_takeWhile (p : Char → Bool) (l : List Char) : (l.takeWhile p).all p = true := by
+  induction l with
+  | nil => simp
+  | cons x xs ih =>
+    rw [List.takeWhile_cons]
+    by_cases hx : p x = true
+    · simp [hx, ih]
+    · simp [hx]
+
+theorem acc_step_comma_unaligned (st : St) (i : Nat) (h1 : st.scale = none) (h2 : st.commaPos = none)
+    (hal : alignedComma st.prefixLen st.commaPos i = false) : acc (step st i ',') = none := by
+  rw [h2] at hal
+  have : step st i ',' = .err (.unexpectedChar i) := by simp [step, h1, h2, hal]
+  rw [this]; rfl
+
+/-- the scanner after the optional sign, in closed form -/
+def bodySpec (n : Bool) (pl : Nat) (b : List Char) : Option PDec :=
+  let g := b.takeWhile Char.isDigit
+  let st1 : St := { prefixLen := pl, neg := n, mant := foldMant 0 g, hasDigit := !g.isEmpty,
+                    fmt := if g.length ≥ 4 then some Fmt.plain else none }
+  if foldMant 0 g ≤ i128Max then
+    match b.dropWhile Char.isDigit with
+    | [] => acc (finish st1 (pl + g.length))
+    | '.' :: fp =>
+      if fp.all Char.isDigit = true ∧ foldMant (foldMant 0 g) fp ≤ i128Max then
+        acc (finish { st1 with scale := some fp.length, mant := foldMant (foldMant 0 g) fp,
+                               hasDigit := !g.isEmpty || !fp.isEmpty } (pl + g.length + (fp.length + 1)))
+      else none
+    | ',' :: cs =>
+      if 1 ≤ g.length ∧ g.length ≤ 3 ∧ tailSpec (',' :: cs) = true ∧
+          foldMant (foldMant 0 g) (cs.filter Char.isDigit) ≤ i128Max then
+        acc (finish { st1 with commaPos := if cs.contains '.' then none else some (pl + g.length + (cs.length + 1)),
+                               mant := foldMant (foldMant 0 g) (cs.filter Char.isDigit),
+                               scale := tailScale (',' :: cs), fmt := some .comma3dot, hasDigit := true }
+                    (pl + g.length + (cs.length + 1)))
+      else none
+    | _ => none
+  else none
+
+theorem run_body (n : Bool) (pl : Nat) (b : List Char) (hhead : pl = 0 → ∀ t, b ≠ '-' :: t) :
+    acc (run { prefixLen := pl, neg := n } pl b) = bodySpec n pl b := by
+  have hsplit : b = b.takeWhile Char.isDigit ++ b.dropWhile Char.isDigit := (List.takeWhile_append_dropWhile).symm
+  unfold bodySpec
+  rw [show run ({ prefixLen := pl, neg := n } : St) pl b
+      = run { prefixLen := pl, neg := n } pl (b.takeWhile Char.isDigit ++ b.dropWhile Char.isDigit) by
+    rw [List.takeWhile_append_dropWhile]]
+  rw [run_digits (b.takeWhile Char.isDigit) { prefixLen := pl, neg := n } pl 0 _ (all_takeWhile _ b) rfl rfl (by simp)
+    (by simp [i128Max]) (by simp)]
+  simp only [Nat.zero_add, Bool.false_or]
+  by_cases hov : foldMant 0 (b.takeWhile Char.isDigit) ≤ i128Max
+  · simp only [show foldMant ({ prefixLen := pl, neg := n } : St).mant (b.takeWhile Char.isDigit)
+        = foldMant 0 (b.takeWhile Char.isDigit) from rfl, hov, if_true]
+    cases hr : b.dropWhile Char.isDigit with
+    | nil => simp only [run_nil]
+    | cons c cs =>
+      have hnd : c.isDigit = false := dropWhile_head_not b hr
+      by_cases hdot : c = '.'
+      · subst hdot
+        rw [acc_run_cons]
+        have hstep : ∀ (st : St), st.scale = none → st.commaPos = none →
+            step st (pl + (b.takeWhile Char.isDigit).length) '.' = .ok { st with scale := some 0, commaPos := none } := by
+          intro st h1 h2; simp [step, h1, h2]
+        rw [hstep _ rfl rfl, acc_ok]
+        dsimp only
+        rw [run_frac cs _ _ 0 (by omega) rfl rfl hov]
+        simp only [Nat.zero_add]
+        rw [show pl + (b.takeWhile Char.isDigit).length + 1 + cs.length
+            = pl + (b.takeWhile Char.isDigit).length + (cs.length + 1) by omega]
+      · by_cases hcomma : c = ','
+        · subst hcomma
+          by_cases hal : 1 ≤ (b.takeWhile Char.isDigit).length ∧ (b.takeWhile Char.isDigit).length ≤ 3
+          · rw [run_first_comma _ _ cs (by omega) rfl rfl (by simp [alignedComma]; omega) hov]
+            simp only [hal, true_and, and_self]
+          · rw [acc_run_cons, acc_step_comma_unaligned _ _ rfl rfl (by
+              simp only [alignedComma]
+              simp only [not_and, Nat.not_le] at hal
+              by_cases h0 : 1 ≤ (b.takeWhile Char.isDigit).length
+              · have := hal h0; simp; omega
+              · simp; omega)]
+            have : ¬ (1 ≤ (b.takeWhile Char.isDigit).length ∧ (b.takeWhile Char.isDigit).length ≤ 3 ∧
+                tailSpec (',' :: cs) = true ∧
+                foldMant (foldMant 0 (b.takeWhile Char.isDigit)) (cs.filter Char.isDigit) ≤ i128Max) := by
+              intro ⟨h1, h2, _⟩; exact hal ⟨h1, h2⟩
+            simp [this]
+        · have hne : ¬ (pl + (b.takeWhile Char.isDigit).length = 0 ∧ c = '-') := by
+            intro ⟨h0, hc⟩
+            have hp : pl = 0 := by omega
+            have hg : (b.takeWhile Char.isDigit) = [] := by
+              apply List.eq_nil_of_length_eq_zero; omega
+            have : b = c :: cs := by rw [hsplit, hg, hr]; rfl
+            exact hhead hp cs (by rw [this, hc])
+          obtain ⟨e, he⟩ := step_other _ _ c hnd hcomma hdot hne
+          rw [acc_run_cons, he]
+          simp only [acc]
+          split
+          all_goals first | rfl | exact absurd rfl hdot | exact absurd rfl hcomma
+  · simp [show foldMant ({ prefixLen := pl, neg := n } : St).mant (b.takeWhile Char.isDigit)
+        = foldMant 0 (b.takeWhile Char.isDigit) from rfl, hov]
+
 end Okane.C07
